@@ -162,6 +162,7 @@ let () =
      (* derivations: dup / adopt keep the source's hook selection (Bind.derive); an XML export reloaded into a
         fresh handle is a new load history of its own *)
      | ["dup"] | ["adopt"] -> ()
+     | "restrict" :: _ -> ()   (* the sets of the restricted topology arrive with the next I line; hooks are not re-selected *)
      | "xmlreload" :: _ -> (match Stdlib.List.rev !history with last :: _ -> history := [last] | [] -> ())
      | "I" :: rest ->
        (* the sets come from the C side; whether the topology is this system is the MODEL's answer for the
